@@ -38,9 +38,36 @@ func keysOf(m map[string]bool) string {
 }
 
 // K1 extents
+// usedBuiltinKinds: the built-in kinds that occur in shipped message layouts.
+func usedBuiltinKinds(c *Codec) map[string]bool {
+	m := map[string]bool{}
+	for _, l := range c.messageLayouts() {
+		for _, f := range l.Fields {
+			if f.HasOff {
+				m[f.Kind] = true
+			}
+		}
+	}
+	return m
+}
+
+// K1Shipped restricts the built-in kinds to those shipped messages use (C01/C02/C05 speak about
+// shipped messages; kinds no message uses are the business of C18).
+var k1ShippedOnly = false
+
+func RuleK1Shipped(r *Report, c *Codec) {
+	k1ShippedOnly = true
+	defer func() { k1ShippedOnly = false }()
+	RuleK1(r, c)
+}
+
 func RuleK1(r *Report, c *Codec) {
-	r.Rule("K1", "per kind: bytes written by the encoder == bytes read by the decoder == protocol width; every access to the message buffer is offset+c with c <= width", 20)
+	r.Rule("K1", "per kind: bytes written by the encoder == bytes read by the decoder == protocol width; every access to the message buffer is offset+c with c <= width", 18)
+	used := usedBuiltinKinds(c)
 	for _, k := range builtinKinds(c) {
+		if k1ShippedOnly && !used[k] {
+			continue
+		}
 		sig := c.KS.Builtin[k]
 		width := c.KS.Signatures[sig].Width
 		for _, cf := range []*CodecFacts{c.M, c.U} {
@@ -145,7 +172,7 @@ func RuleK2(r *Report, c *Codec) {
 
 // K3 booleans
 func RuleK3(r *Report, c *Codec) {
-	r.Rule("K3", "boolean encoder emits exactly 0/1; decoder maps 1->true, 0->false and rejects every other byte", 4)
+	r.Rule("K3", "boolean encoder emits exactly 0/1; decoder maps 1->true, 0->false and rejects every other byte", 2)
 	// encoder
 	vals := map[string]string{}
 	for _, cp := range c.M.Paths {
@@ -357,7 +384,7 @@ func shortCallee(n string) string {
 
 // K6 one numeric base for value tags
 func RuleK6(r *Report, c *Codec) {
-	r.Rule("K6", "every value: tag is parsed with base 0 (the tag grammar admits 0x.. and decimal) on encode and decode alike", 6)
+	r.Rule("K6", "every value: tag is parsed with base 0 (the tag grammar admits 0x.. and decimal) on encode and decode alike", 5)
 	for _, cf := range []*CodecFacts{c.M, c.U} {
 		bases := map[string]map[string]string{}
 		for _, cp := range cf.Paths {
